@@ -39,7 +39,7 @@ def run(ctx):
             continue
         cases.append(c)
     n_scripted = len(cases)
-    for _ in range(300 if T else 60):
+    for _ in range(300 if T else 100):
         cases.append(hc.composite_case(rng, len(cases), PROP))
     log("%d cases: %d from %d TLC behaviours (%d infeasible for the real plugins), %d composite" % (
         len(cases), n_scripted, len(behs), infeasible, len(cases) - n_scripted))
